@@ -118,21 +118,27 @@ def run_identity(ctx, rng):
     wo = np.asarray(obj.signed_weights(), float)
     e1, e2 = obj.gamma(ML.FixedPredictor(h1)).iloc[0], obj.gamma(ML.FixedPredictor(h2)).iloc[0]
     ctx.ev("objective_identities_checked")
-    ctx.check(close(e1 - e2, -np.dot(wo, h1 - h2) / n, 1e-9, 1e-12), "objective_weights_are_not_the_gradient_of_the_error", costs=costs,
+    # single-precision labels make the weights single precision: that is rounding, not a wrong gradient
+    otol = 1e-5 if str(getattr(y, "dtype", "")) == "float32" else 1e-9
+    ctx.check(close(e1 - e2, -np.dot(wo, h1 - h2) / n, otol, 1e-12 if otol < 1e-6 else 1e-7), "objective_weights_are_not_the_gradient_of_the_error", costs=costs,
               error_difference=float(e1 - e2), weighted=float(-np.dot(wo, h1 - h2) / n), wit=wit)
-    ctx.check(bool(np.allclose(wo, RM.error_weights(ds.y, fp, fn), atol=1e-12)), "objective_weights_differ_from_definition", costs=costs,
+    ctx.check(bool(np.allclose(wo, RM.error_weights(ds.y, fp, fn), atol=1e-12 if otol < 1e-6 else 1e-6)), "objective_weights_differ_from_definition", costs=costs,
               got=wo.tolist(), wit=wit)
     lam_all = pd.Series([2.5], index=["all"])
-    ctx.check(bool(np.allclose(np.asarray(obj.signed_weights(lam_all), float), 2.5 * wo, atol=1e-12)), "objective_weights_not_scaled_by_lambda", wit=wit)
+    ctx.check(bool(np.allclose(np.asarray(obj.signed_weights(lam_all), float), 2.5 * wo, atol=1e-12 if otol < 1e-6 else 1e-6)), "objective_weights_not_scaled_by_lambda", wit=wit)
     # projection
     for trial in range(3):
         lam = pd.Series(rng.random(len(idx)) * 4 * (rng.random(len(idx)) < 0.7), index=moment.index)
+        if trial > 0:
+            # a multiplier vector is addressed by constraint id, not by storage order
+            lam = lam.iloc[rng.permutation(len(idx))] if trial == 1 else lam.sort_index(level=[1, 2])
         pl = moment.project_lambda(lam.copy())
         ctx.ev("projection_checks")
         if not ctx.check(isinstance(pl, pd.Series) and len(pl) == len(idx), "project_lambda_wrong_shape", wit=wit):
             break
         pl = pl.reindex(moment.index)
         ctx.check(bool((np.asarray(pl, float) >= 0).all()), "project_lambda_negative_entry", got=np.asarray(pl, float).tolist(), lam=lam.tolist(), wit=wit)
+        lam = lam.reindex(moment.index)
         b = np.asarray(moment.bound().reindex(moment.index), float)
         for h in [np.zeros(n), np.ones(n), h1, (rng.random(n) < 0.5).astype(float)] + [np.eye(n)[int(rng.integers(0, n))]]:
             gm = np.asarray(moment.gamma(ML.FixedPredictor(h)).reindex(moment.index), float)
